@@ -209,6 +209,10 @@ def json_spec(draw):
         if f & 4:
             s["ns"] = draw(st.dictionaries(st.one_of(st.sampled_from(["p", "q", "r"]), _hostile),
                                            st.one_of(st.sampled_from(["urn:1", "urn:2"]), _hostile), max_size=3))
+        if f & 12 == 12:
+            # a map assigned through the setter: any strings, also an empty namespace name or prefix
+            s["nsd"] = draw(st.dictionaries(st.one_of(st.sampled_from(["p", "q", "local", ""]), _hostile),
+                                            st.one_of(st.sampled_from(["urn:1", "", " "]), _hostile), min_size=1, max_size=3))
         if f & 8:
             s["lns"] = draw(st.dictionaries(st.sampled_from(["p", "q", "r"]), st.sampled_from(["urn:1", "urn:2"]), max_size=3))
         if f & 16:
